@@ -66,7 +66,7 @@ def _(self: Ref['mqtt.client.pubsubs.MQTTProtocol']):
     modifies(all_but(KEEP_MADE), callbacks())
     ensures(inv(self) and is_list_bytes(self.transport.tr_out))
     ensures(alarms_set(self))
-    ensures(unchanged(self._pingReq.alarm))
+    ensures(unchanged(self._pingReq.alarm) and conn_untouched(self))
     ensures(same_containers(self))
     # clean session: what an earlier connection left behind fails with MQTTSessionCleared; nothing is written
     ensures(implies(self._cleanStart, out(self) == old(out(self))))
@@ -96,6 +96,7 @@ def _(self: Ref['mqtt.client.base.MQTTBaseProtocol']):
     requires(is_none(self._pingReq.alarm) or isa(self._pingReq.alarm, 'DelayedCall'))
     modifies(self.transport.tr_out, self._pingReq.alarm, allocates())
     ensures(is_list_bytes(self.transport.tr_out) and out(self) == old(out(self)) + lb(sPINGREQ()))
+    ensures(no_other_timer(self._pingReq.alarm))
     # a single deadline: armed only if none is pending, k seconds ahead, aborting the connection when it expires
     ensures(implies(old(is_none(self._pingReq.alarm)),
                     isa(self._pingReq.alarm, 'DelayedCall') and is_fresh(self._pingReq.alarm)
@@ -159,7 +160,7 @@ def _(self: Ref['mqtt.client.base.MQTTBaseProtocol'], request: Ref['mqtt.pdu.CON
     modifies(self._cleanStart, self._version, self.transport.tr_out, self.state, request.alarm, request.deferred,
              request.encoded, self.connReq, self.g_sent_connect, allocates())
     ensures(is_bool(result.d_fired) and is_list_bytes(self.transport.tr_out))
-    ensures(no_other_timer(as_ref(request.alarm)))
+    ensures(no_other_timer(request.alarm))
     # refused up front: failed Deferred, nothing written, no timer, state unchanged
     ensures(implies(connect_rejected(request), result.d_fired and not result.d_ok and is_exc(result.d_val)
                     and not (result.d_val == exc('MQTTStateError'))
@@ -228,3 +229,11 @@ def _(self: Ref['mqtt.client.pubsubs.MQTTProtocol'], response: Ref['mqtt.pdu.CON
     # refused (every other return code, reserved ones included): idle again, Deferred fails, nothing written
     ensures(implies(response.resultCode != 0, self.state == self.IDLE and d.d_fired and not d.d_ok and is_exc(d.d_val)
                     and out(self) == old(out(self)) and is_none(self._pingReq.timer)))
+
+
+# proof steps for conn_timers_ok across the accepted CONNACK (the facts the final state needs, stated where they are cheap)
+@ghost_at('mqtt.client.base.MQTTBaseProtocol.handleCONNACK', after='self.mqttConnectionMade()')
+def _():
+    hint(request.deferred.d_owner == request)
+    hint(is_int(request.alarm.t_status) and request.alarm.t_status == 1)
+    hint(conn_timers_ok(self))
